@@ -310,4 +310,88 @@ Section Loops.
       replace (Z.max (i + 1) e) with (Z.max i e) by lia. split; [reflexivity|].
       replace (Z.to_nat (i + 1)) with (S (Z.to_nat i)) in R2 by lia. rewrite upd_upd in R2 by (apply (mrep_bg_lt _ _ _ _ _ R)). exact R2.
   Qed.
+
+  Lemma eval_in_buf y gblk m L i ln : mrep keep y gblk m L ->
+    eval call in_buf (ST i ln m) = Ok (VInt (b2z (i <? Z.of_nat (length L))), ST i ln m).
+  Proof.
+    intro R. unfold in_buf. cbn [eval bind get_local locals ST nth_error]. fold (ST i ln m). rewrite (eval_len y gblk m L i ln R). reflexivity.
+  Qed.
+  Lemma LB_with_lns lb L : LB (ExDefs.with_lns lb L) = L.
+  Proof. reflexivity. Qed.
+  Lemma gget_rep y gblk m (lb : ExDefs.lbuf) i x : mrep keep y gblk m (LB lb) -> nth_error (LB lb) i = Some x ->
+    let g1 := upd gblk i (VInt (sb (N.clearbit (ExDefs.lgl x) dep))) in
+    mrep keep y g1 (upd m (y_bg y) g1) (LB (fst (ExDefs.lbuf_globget lb i dep))).
+  Proof.
+    intros R Hx g1. pose proof R as (A1 & A2 & A3 & A4 & A5 & A6 & A7 & A8 & A9 & G & _).
+    apply (mrep_marks keep y gblk m (LB lb)); [exact R|apply len_gget|].
+    exact (proj2 (tr_lbuf_globget m (y_bl y) (y_blk y) (y_bg y) gblk lb i x dep 0%nat 0%nat A3 A4 G Hx Hdep)).
+  Qed.
+
+  (* ---- (2) the scan: while (i < lbuf_len(xb) && !lbuf_globget(xb, i, xgdep)) i++ = glob_scan (the mark it finds is cleared) *)
+  Lemma scan_loop_ok y : forall n i (lb : ExDefs.lbuf) gblk m ln fuel,
+    mrep keep y gblk m (LB lb) -> cell_at m G_xgdep (Z.of_N dep) -> (i + n = length (LB lb))%nat -> (n < fuel)%nat ->
+    exists gblk', exec call fuel scan_loop (ST (Z.of_nat i) ln m)
+                  = ONormal (ST (Z.of_nat (fst (ExDefs.glob_scan i dep lb))) ln (upd m (y_bg y) gblk')) /\
+                  mrep keep y gblk' (upd m (y_bg y) gblk') (LB (snd (ExDefs.glob_scan i dep lb))).
+  Proof.
+    induction n as [|n IH]; intros i lb gblk m ln fuel R Hg Hn Hf; (destruct fuel as [|fuel]; [lia|]);
+      pose proof R as (A1 & A2 & A3 & A4 & A5 & A6 & A7 & A8 & A9 & G & N1 & N2 & N3 & N4);
+      unfold ExDefs.glob_scan; fold (LB lb); rewrite (scan_l_unfold dep (LB lb) i).
+    - assert (E : nth_error (LB lb) i = None) by (apply nth_error_None; lia). rewrite E. cbn [fst snd]. rewrite LB_with_lns.
+      exists gblk. rewrite (upd_self m _ _ (proj1 G)). split; [|exact R].
+      unfold scan_loop. rewrite exec_while. cbn [eval bind]. rewrite (eval_in_buf y gblk m (LB lb) _ ln R). cbn [bind].
+      destruct (Z.ltb_spec (Z.of_nat i) (Z.of_nat (length (LB lb)))); [lia|]. cbn [b2z truth negb Z.eqb bind].
+      f_equal. f_equal. lia.
+    - destruct (row_in (LB lb) (Z.of_nat i) ltac:(lia)) as [x Hx]. rewrite Nat2Z.id in Hx. rewrite Hx.
+      pose proof (gget_rep y gblk m lb i x R Hx) as R1. cbv zeta in R1.
+      set (g1 := upd gblk i (VInt (sb (N.clearbit (ExDefs.lgl x) dep)))) in *.
+      unfold scan_loop. rewrite exec_while. cbn [eval bind]. rewrite (eval_in_buf y gblk m (LB lb) _ ln R). cbn [bind].
+      destruct (Z.ltb_spec (Z.of_nat i) (Z.of_nat (length (LB lb)))); [|lia]. cbn [b2z truth negb Z.eqb bind].
+      rewrite (eval_gget_call y gblk m lb i x ln R Hg Hx). fold g1. cbn [bind]. rewrite truth_b2z. cbn [bind]. rewrite truth_b2z. cbn [bind].
+      rewrite truth_b2z.
+      destruct (ExDefs.glob_marked dep x) eqn:Mx; cbn [negb fst snd].
+      + exists g1. split; [reflexivity|]. rewrite LB_with_lns.
+        unfold ExDefs.lbuf_globget in R1. fold (LB lb) in R1. rewrite Hx in R1. cbn [fst] in R1. rewrite LB_with_lns in R1. exact R1.
+      + assert (Eg : g1 = gblk).
+        { unfold g1. unfold ExDefs.glob_marked in Mx. rewrite (clearbit_unset _ _ Mx). apply upd_self. exact (proj2 (proj2 G i x Hx)). }
+        rewrite Eg. rewrite (upd_self m _ _ (proj1 G)). rewrite exec_expr.
+        rewrite eval_inc by (unfold i32 in *; lia). fold scan_loop.
+        replace (Z.of_nat i + 1) with (Z.of_nat (S i)) by lia.
+        destruct (IH (S i) lb gblk m ln fuel R Hg ltac:(lia) ltac:(lia)) as (g2 & E2 & R2).
+        unfold ExDefs.glob_scan in E2, R2. fold (LB lb) in E2, R2. exists g2. split; [exact E2|exact R2].
+  Qed.
+  (* the scan position is already beyond the end (a command list shortened the buffer): nothing happens *)
+  Lemma scan_loop_out y gblk m L i ln fuel : mrep keep y gblk m L -> Z.of_nat (length L) <= i ->
+    exec call (S fuel) scan_loop (ST i ln m) = ONormal (ST i ln m).
+  Proof.
+    intros R Hi. unfold scan_loop. rewrite exec_while. cbn [eval bind]. rewrite (eval_in_buf y gblk m L _ ln R). cbn [bind].
+    destruct (Z.ltb_spec i (Z.of_nat (length L))); [lia|]. reflexivity.
+  Qed.
+
+  (* ---- (3) the final sweep: for (i = 0; i < lbuf_len(xb); i++) lbuf_globget(xb, i, xgdep) = globclear *)
+  Lemma sweep_loop_ok y : forall n i (lb : ExDefs.lbuf) gblk m ln fuel,
+    mrep keep y gblk m (LB lb) -> cell_at m G_xgdep (Z.of_N dep) -> (i + n = length (LB lb))%nat -> (n < fuel)%nat ->
+    exists gblk', exec call fuel sweep_loop (ST (Z.of_nat i) ln m) = ONormal (ST (Z.of_nat (length (LB lb))) ln (upd m (y_bg y) gblk')) /\
+                  mrep keep y gblk' (upd m (y_bg y) gblk') (LB (ExDefs.globclear n i dep lb)).
+  Proof.
+    induction n as [|n IH]; intros i lb gblk m ln fuel R Hg Hn Hf; (destruct fuel as [|fuel]; [lia|]);
+      pose proof R as (A1 & A2 & A3 & A4 & A5 & A6 & A7 & A8 & A9 & G & N1 & N2 & N3 & N4).
+    - exists gblk. rewrite (upd_self m _ _ (proj1 G)). split; [|exact R].
+      unfold sweep_loop. rewrite exec_for. cbn [eval_opt]. rewrite (eval_in_buf y gblk m (LB lb) _ ln R).
+      destruct (Z.ltb_spec (Z.of_nat i) (Z.of_nat (length (LB lb)))); [lia|]. cbn [b2z truth negb Z.eqb].
+      f_equal. f_equal. lia.
+    - destruct (row_in (LB lb) (Z.of_nat i) ltac:(lia)) as [x Hx]. rewrite Nat2Z.id in Hx.
+      pose proof (gget_rep y gblk m lb i x R Hx) as R1. cbv zeta in R1.
+      set (g1 := upd gblk i (VInt (sb (N.clearbit (ExDefs.lgl x) dep)))) in *.
+      destruct (IH (S i) (fst (ExDefs.lbuf_globget lb i dep)) g1 (upd m (y_bg y) g1) ln fuel R1) as (g2 & E2 & R2).
+      { unfold cell_at. rewrite (keep_other keep y gblk m (LB lb) G_xgdep R keep_gdep). exact Hg. }
+      { rewrite len_gget. lia. } { lia. }
+      exists g2. unfold sweep_loop. rewrite exec_for. cbn [eval_opt]. rewrite (eval_in_buf y gblk m (LB lb) _ ln R).
+      destruct (Z.ltb_spec (Z.of_nat i) (Z.of_nat (length (LB lb)))); [|lia]. cbn [b2z truth negb Z.eqb]. rewrite exec_expr.
+      rewrite (eval_gget_call y gblk m lb i x ln R Hg Hx). fold g1.
+      rewrite eval_inc by (unfold i32 in *; lia). fold sweep_loop.
+      replace (Z.of_nat i + 1) with (Z.of_nat (S i)) by lia. rewrite E2. rewrite len_gget.
+      rewrite upd_upd by (apply (mrep_bg_lt _ _ _ _ _ R)). split; [reflexivity|].
+      rewrite upd_upd in R2 by (apply (mrep_bg_lt _ _ _ _ _ R)). exact R2.
+  Qed.
 End Loops.
